@@ -112,7 +112,12 @@ class Cert:
 
 
 def apply_cert(report, cert):
+    seen = set()
     for rule, instance, where, ok, detail, construct in cert.items:
+        key = (rule, instance, where, ok)
+        if key in seen:
+            continue
+        seen.add(key)
         if ok is None:
             raise AnalysisError('%s %s at %s: %s' % (rule, instance, where,
                                                      detail))
@@ -429,6 +434,24 @@ def cert_K3(repo):
                         if n not in ('t', TA, TB) and s in e.free_symbols]
                 if not dist:
                     raise AnalysisError('%s: no distance term' % where)
+                import re as _re
+                pat = _re.compile(
+                    r'^\(\(x - elem_trial\.(gamma_space\(\w+\)|'
+                    r'\w*log_scheme(?:_m)?_y)\) \*\* 2\)\[([01])\]$')
+                ms = [pat.match(d_.name) for d_ in dist]
+                chord = (len(dist) == 2 and all(ms)
+                         and {m_.group(2) for m_ in ms} == {'0', '1'}
+                         and len({m_.group(1) for m_ in ms}) == 1)
+                c.add('R-chord', '%s, case %s: squared distance' %
+                      (tag, case), where, chord,
+                      'the kernel receives |x - gamma_trial(y)|^2 = the sum '
+                      'of the two squared components of the embedded '
+                      'difference (not a parameter distance); found %s' %
+                      [d_.name for d_ in dist],
+                      construct='evaluate: squared chord distance (%s)' %
+                      tag)
+                if not chord:
+                    continue
                 # find xy as the argument structure: replace the sum of the
                 # two squared components by R2
                 xy = sp.Symbol('xy', positive=True)
@@ -515,6 +538,7 @@ class TailVec(Walker):
     """Values assigned to the name that is finally dotted with the weights
     in the last return of evaluate."""
     descend_nested = False
+    split_paths = True
 
     def __init__(self):
         super().__init__()
